@@ -1,9 +1,330 @@
 (* C14 — Functional slice and map helpers equal their reference definitions.
    Statements only; every proof is [exact] of a lemma from
-   Slices/FuncProofs.v or Maps/MapHelpersProofs.v. *)
-From Typ Require Import Lib.Base Slices.Func Slices.FuncProofs.
+   Slices/FuncProofs.v or Maps/MapHelpersProofs.v.
 
+   Quantifiers: every element / state / key / result type, every list (no
+   bound on the length), every Gallina callback; for a [comparable] Go type
+   every boolean equality [eqb] that decides Leibniz equality; for the map
+   helpers every gmap and every order [visit] in which [range] may visit it.
+   The models are in Slices/Func.v and Maps/MapHelpers.v; slices are lists
+   (value model), so "the input is not modified" and "the result is a fresh
+   slice / map" are outside these statements: the harness checks them on
+   every case. *)
+From Typ Require Import Maps.MapHelpers Maps.MapHelpersProofs.
+From Typ Require Import Lib.Base Slices.Func Slices.FuncProofs.
+From Coq Require Import Permutation.
+
+(* ---- Fold, FoldReverse ---- *)
+
+(* acc(...acc(acc(seed, s[0]), s[1])..., s[n-1]) *)
 Theorem C14_fold : forall (A State : Type) (l : list A) (seed : State) (acc : State -> A -> State),
   fold l seed acc = fold_left acc l seed.
 Proof. exact @fold_correct. Qed.
 Print Assumptions C14_fold.
+
+(* acc applied from the last element down to the first; never panics *)
+Theorem C14_fold_reverse : forall (A State : Type) (l : list A) (seed : State) (acc : State -> A -> State),
+  foldreverse l seed acc = Ok (fold_left acc (rev l) seed).
+Proof. exact @foldreverse_correct. Qed.
+Print Assumptions C14_fold_reverse.
+
+Theorem C14_fold_empty : forall (A State : Type) (seed : State) (acc : State -> A -> State),
+  fold [] seed acc = seed /\ foldreverse [] seed acc = Ok seed.
+Proof. exact @fold_empty. Qed.
+Print Assumptions C14_fold_empty.
+
+(* ---- Map, MapErr, Filter, Any, All ---- *)
+
+Theorem C14_map : forall (A B : Type) (zero : B) (l : list A) (conv : A -> B),
+  map_ zero l conv = Ok (map conv l).
+Proof. exact @map_correct. Qed.
+Print Assumptions C14_map.
+
+(* no conversion fails: all results, no error, conv called once per element in order *)
+Theorem C14_map_err_no_error : forall (A B E : Type) (zero : B) (l : list A) (conv : A -> B * option E),
+  (forall x, In x l -> snd (conv x) = None) ->
+  maperr zero l conv = Ok (map (fun x => fst (conv x)) l, None, l).
+Proof. exact @maperr_no_error. Qed.
+Print Assumptions C14_map_err_no_error.
+
+(* x is the first element whose conversion fails: no result (nil), exactly x's error, and the
+   call log ends with x, i.e. conv is not called on the elements after x *)
+Theorem C14_map_err_first_error :
+  forall (A B E : Type) (zero : B) (pre : list A) (x : A) (post : list A) (conv : A -> B * option E) (e : E),
+  (forall y, In y pre -> snd (conv y) = None) -> snd (conv x) = Some e ->
+  maperr zero (pre ++ x :: post) conv = Ok ([], Some e, pre ++ [x]).
+Proof. exact @maperr_first_error. Qed.
+Print Assumptions C14_map_err_first_error.
+
+Theorem C14_filter : forall (A : Type) (l : list A) (p : A -> bool), filter_ l p = filter p l.
+Proof. exact @filter_correct. Qed.
+Print Assumptions C14_filter.
+
+Theorem C14_any : forall (A : Type) (l : list A) (cond : A -> bool), any l cond = existsb cond l.
+Proof. exact @any_correct. Qed.
+Print Assumptions C14_any.
+
+Theorem C14_all : forall (A : Type) (l : list A) (cond : A -> bool), all l cond = forallb cond l.
+Proof. exact @all_correct. Qed.
+Print Assumptions C14_all.
+
+(* ---- Index, IndexFunc, Contains, ContainsFunc ---- *)
+
+Theorem C14_index_func_none : forall (A : Type) (l : list A) (f : A -> bool),
+  (forall x, In x l -> f x = false) -> indexfunc l f = (-1)%Z.
+Proof. exact @indexfunc_none. Qed.
+Print Assumptions C14_index_func_none.
+
+Theorem C14_index_func_first : forall (A : Type) (pre : list A) (x : A) (post : list A) (f : A -> bool),
+  (forall y, In y pre -> f y = false) -> f x = true ->
+  indexfunc (pre ++ x :: post) f = Z.of_nat (length pre).
+Proof. exact @indexfunc_first. Qed.
+Print Assumptions C14_index_func_first.
+
+Theorem C14_index_none : forall (A : Type) (eqb : A -> A -> bool), (forall x y, eqb x y = true <-> x = y) ->
+  forall (l : list A) (v : A), ~ In v l -> index eqb l v = (-1)%Z.
+Proof. exact @index_none. Qed.
+Print Assumptions C14_index_none.
+
+Theorem C14_index_first : forall (A : Type) (eqb : A -> A -> bool), (forall x y, eqb x y = true <-> x = y) ->
+  forall (pre : list A) (v : A) (post : list A), ~ In v pre -> index eqb (pre ++ v :: post) v = Z.of_nat (length pre).
+Proof. exact @index_first. Qed.
+Print Assumptions C14_index_first.
+
+Theorem C14_contains : forall (A : Type) (eqb : A -> A -> bool), (forall x y, eqb x y = true <-> x = y) ->
+  forall (l : list A) (v : A), contains eqb l v = true <-> In v l.
+Proof. exact @contains_In. Qed.
+Print Assumptions C14_contains.
+
+(* equals is called as equals(element, value) *)
+Theorem C14_contains_func : forall (A : Type) (l : list A) (v : A) (equals : A -> A -> bool),
+  containsfunc l v equals = existsb (fun u => equals u v) l.
+Proof. exact @containsfunc_existsb. Qed.
+Print Assumptions C14_contains_func.
+
+(* ---- Distinct, DistinctFunc ---- *)
+
+Theorem C14_distinct : forall (A : Type) (eqb : A -> A -> bool), (forall x y, eqb x y = true <-> x = y) ->
+  forall l : list A, distinct eqb l = first_occs eqb l.
+Proof. exact @distinct_correct. Qed.
+Print Assumptions C14_distinct.
+
+(* first_occs: no repetition, exactly the elements of l, in the order of l *)
+Theorem C14_first_occurrences : forall (A : Type) (eqb : A -> A -> bool), (forall x y, eqb x y = true <-> x = y) ->
+  forall l : list A,
+  NoDup (first_occs eqb l) /\ (forall x, In x (first_occs eqb l) <-> In x l) /\ subseq (first_occs eqb l) l.
+Proof. exact @first_occs_spec. Qed.
+Print Assumptions C14_first_occurrences.
+
+(* for a transitive equals (every equivalence): kept iff no element before it in the input is equal to it *)
+Theorem C14_distinct_func : forall (A : Type) (l : list A) (equals : A -> A -> bool),
+  (forall x y z, equals x y = true -> equals y z = true -> equals x z = true) ->
+  distinctfunc l equals = first_occs equals l.
+Proof. exact @distinctfunc_correct. Qed.
+Print Assumptions C14_distinct_func.
+
+(* for any equals at all: kept iff not equal to an element kept before *)
+Theorem C14_distinct_func_any_equals : forall (A : Type) (l : list A) (x : A) (equals : A -> A -> bool),
+  distinctfunc [] equals = [] /\
+  distinctfunc (l ++ [x]) equals =
+    if existsb (fun u => equals u x) (distinctfunc l equals) then distinctfunc l equals
+    else distinctfunc l equals ++ [x].
+Proof. exact @distinctfunc_snoc. Qed.
+Print Assumptions C14_distinct_func_any_equals.
+
+(* ---- Except, ExceptSet ---- *)
+
+Theorem C14_except : forall (A : Type) (eqb : A -> A -> bool), (forall x y, eqb x y = true <-> x = y) ->
+  forall l exclude : list A, except eqb l exclude = filter (fun v => negb (existsb (eqb v) exclude)) l.
+Proof. exact @except_correct. Qed.
+Print Assumptions C14_except.
+
+Theorem C14_except_set : forall (A : Type) (l : list A) (exclude_has : A -> bool),
+  exceptset l exclude_has = filter (fun v => negb (exclude_has v)) l.
+Proof. exact @exceptset_correct. Qed.
+Print Assumptions C14_except_set.
+
+(* ---- GroupBy, CountBy ---- *)
+
+Theorem C14_group_by : forall (A K : Type) (keqb : K -> K -> bool), (forall x y, keqb x y = true <-> x = y) ->
+  forall (zk : K) (l : list A) (keyer : A -> K), groupby keqb zk l keyer = Ok (group_ref keqb keyer l).
+Proof. exact @groupby_correct. Qed.
+Print Assumptions C14_group_by.
+
+Theorem C14_count_by : forall (A K : Type) (keqb : K -> K -> bool), (forall x y, keqb x y = true <-> x = y) ->
+  forall (zk : K) (l : list A) (keyer : A -> K), countby keqb zk l keyer = Ok (count_ref keqb keyer l).
+Proof. exact @countby_correct. Qed.
+Print Assumptions C14_count_by.
+
+(* keys in order of first appearance; each group holds exactly the elements with its key, in
+   original order, and is not empty; the groups together are a rearrangement of l; sizes sum to n *)
+Theorem C14_groups : forall (A K : Type) (keqb : K -> K -> bool), (forall x y, keqb x y = true <-> x = y) ->
+  forall (keyer : A -> K) (l : list A),
+  let g := group_ref keqb keyer l in
+  map fst g = first_occs keqb (map keyer l) /\
+  (forall k vs, In (k, vs) g -> vs = filter (fun v => keqb (keyer v) k) l /\ vs <> []) /\
+  Permutation (concat (map snd g)) l /\
+  list_sum (map (fun kv => length (snd kv)) g) = length l.
+Proof. exact @group_ref_spec. Qed.
+Print Assumptions C14_groups.
+
+(* the counts are the group sizes, and sum to n *)
+Theorem C14_counts : forall (A K : Type) (keqb : K -> K -> bool), (forall x y, keqb x y = true <-> x = y) ->
+  forall (keyer : A -> K) (l : list A),
+  count_ref keqb keyer l = map (fun kv => (fst kv, Z.of_nat (length (snd kv)))) (group_ref keqb keyer l) /\
+  fold_right Z.add 0%Z (map snd (count_ref keqb keyer l)) = Z.of_nat (length l).
+Proof. exact @count_ref_spec. Qed.
+Print Assumptions C14_counts.
+
+(* ---- Trim family (an element is unwanted when the callback returns TRUE, resp. when it is in
+   the unwanted slice) ---- *)
+
+Theorem C14_trim_left_func : forall (A : Type) (l : list A) (unwanted : A -> bool),
+  trimleftfunc l unwanted = drop_while unwanted l.
+Proof. exact @trimleftfunc_correct. Qed.
+Print Assumptions C14_trim_left_func.
+
+Theorem C14_trim_right_func : forall (A : Type) (l : list A) (unwanted : A -> bool),
+  trimrightfunc l unwanted = Ok (drop_while_end unwanted l).
+Proof. exact @trimrightfunc_correct. Qed.
+Print Assumptions C14_trim_right_func.
+
+Theorem C14_trim_func : forall (A : Type) (l : list A) (unwanted : A -> bool),
+  trimfunc l unwanted = Ok (trim_ref unwanted l).
+Proof. exact @trimfunc_correct. Qed.
+Print Assumptions C14_trim_func.
+
+Theorem C14_trim_left : forall (A : Type) (eqb : A -> A -> bool) (l unwanted : list A),
+  trimleft eqb l unwanted = drop_while (fun v => contains eqb unwanted v) l.
+Proof. exact @trimleft_correct. Qed.
+Print Assumptions C14_trim_left.
+
+Theorem C14_trim_right : forall (A : Type) (eqb : A -> A -> bool) (l unwanted : list A),
+  trimright eqb l unwanted = Ok (drop_while_end (fun v => contains eqb unwanted v) l).
+Proof. exact @trimright_correct. Qed.
+Print Assumptions C14_trim_right.
+
+Theorem C14_trim : forall (A : Type) (eqb : A -> A -> bool) (l unwanted : list A),
+  trim eqb l unwanted = Ok (trim_ref (fun v => contains eqb unwanted v) l).
+Proof. exact @trim_correct. Qed.
+Print Assumptions C14_trim.
+
+(* the references are contiguous segments of l: l minus a prefix / suffix of unwanted elements
+   that cannot be extended *)
+Theorem C14_trim_left_segment : forall (A : Type) (p : A -> bool) (l : list A),
+  exists pre, l = pre ++ drop_while p l /\ forallb p pre = true /\
+              (forall x r, drop_while p l = x :: r -> p x = false).
+Proof. exact @drop_while_spec. Qed.
+Print Assumptions C14_trim_left_segment.
+
+Theorem C14_trim_right_segment : forall (A : Type) (p : A -> bool) (l : list A),
+  exists suf, l = drop_while_end p l ++ suf /\ forallb p suf = true /\
+              (forall r x, drop_while_end p l = r ++ [x] -> p x = false).
+Proof. exact @drop_while_end_spec. Qed.
+Print Assumptions C14_trim_right_segment.
+
+Theorem C14_trim_segment : forall (A : Type) (p : A -> bool) (l : list A),
+  exists pre suf, l = pre ++ trim_ref p l ++ suf /\ forallb p pre = true /\ forallb p suf = true /\
+    (forall x r, trim_ref p l = x :: r -> p x = false) /\
+    (forall r x, trim_ref p l = r ++ [x] -> p x = false).
+Proof. exact @trim_ref_spec. Qed.
+Print Assumptions C14_trim_segment.
+
+(* ---- TryGet, SafeGet, SafeGetOr, Last ---- *)
+
+Theorem C14_get_in_bounds : forall (A : Type) (zero fallback : A) (l : list A) (i : Z),
+  (0 <= i < Z.of_nat (length l))%Z ->
+  exists v, nth_error l (Z.to_nat i) = Some v /\
+    tryget zero l i = Ok (v, true) /\ safeget zero l i = Ok v /\ safegetor l i fallback = Ok v.
+Proof. exact @get_family_in. Qed.
+Print Assumptions C14_get_in_bounds.
+
+Theorem C14_get_out_of_bounds : forall (A : Type) (zero fallback : A) (l : list A) (i : Z),
+  (i < 0 \/ Z.of_nat (length l) <= i)%Z ->
+  tryget zero l i = Ok (zero, false) /\ safeget zero l i = Ok zero /\ safegetor l i fallback = Ok fallback.
+Proof. exact @get_family_out. Qed.
+Print Assumptions C14_get_out_of_bounds.
+
+Theorem C14_last : forall (A : Type) (l : list A),
+  last_ (@nil A) = Panic IndexOutOfRange /\ forall x, last_ (l ++ [x]) = Ok x.
+Proof. exact @last_correct. Qed.
+Print Assumptions C14_last.
+
+(* ---- map helpers: for every order in which range may visit the map ---- *)
+
+Theorem C14_map_contains_value : forall (K : Type) (EqK : EqDecision K) (CK : Countable K) (V : Type)
+    (veqb : V -> V -> bool), (forall x y, veqb x y = true <-> x = y) ->
+  forall (m : gmap K V) (visit : list (K * V)) (value : V), Permutation visit (map_to_list m) ->
+  containsvalue veqb m visit value = true <-> exists k, m !! k = Some value.
+Proof. exact @containsvalue_correct. Qed.
+Print Assumptions C14_map_contains_value.
+
+(* found: some key holding the value (which one depends on the order); not found: the zero key,
+   and no key holds the value *)
+Theorem C14_map_key_of : forall (K : Type) (EqK : EqDecision K) (CK : Countable K) (V : Type)
+    (veqb : V -> V -> bool), (forall x y, veqb x y = true <-> x = y) ->
+  forall (zero : K) (m : gmap K V) (visit : list (K * V)) (value : V), Permutation visit (map_to_list m) ->
+  match keyof veqb zero m visit value with
+  | (k, true) => m !! k = Some value
+  | (k, false) => k = zero /\ forall k', m !! k' <> Some value
+  end.
+Proof. exact @keyof_correct. Qed.
+Print Assumptions C14_map_key_of.
+
+Theorem C14_map_clone : forall (K : Type) (EqK : EqDecision K) (CK : Countable K) (V : Type)
+    (m : gmap K V) (visit : list (K * V)), Permutation visit (map_to_list m) -> clone m visit = m.
+Proof. exact @clone_correct. Qed.
+Print Assumptions C14_map_clone.
+
+Theorem C14_map_clear : forall (K : Type) (EqK : EqDecision K) (CK : Countable K) (V : Type)
+    (m : gmap K V) (visit : list (K * V)), Permutation visit (map_to_list m) -> clear m visit = ∅.
+Proof. exact @clear_correct. Qed.
+Print Assumptions C14_map_clear.
+
+Theorem C14_map_has_key : forall (K : Type) (EqK : EqDecision K) (CK : Countable K) (V : Type)
+    (m : gmap K V) (k : K), haskey m k = true <-> is_Some (m !! k).
+Proof. exact @haskey_correct. Qed.
+Print Assumptions C14_map_has_key.
+
+Theorem C14_map_keys : forall (K : Type) (EqK : EqDecision K) (CK : Countable K) (V : Type)
+    (m : gmap K V) (visit : list (K * V)), Permutation visit (map_to_list m) ->
+  Permutation (keys m visit) (map fst (map_to_list m)) /\ NoDup (keys m visit) /\
+  forall k, k ∈ keys m visit <-> is_Some (m !! k).
+Proof. exact @keys_correct. Qed.
+Print Assumptions C14_map_keys.
+
+Theorem C14_map_values : forall (K : Type) (EqK : EqDecision K) (CK : Countable K) (V : Type)
+    (m : gmap K V) (visit : list (K * V)), Permutation visit (map_to_list m) ->
+  Permutation (values m visit) (map snd (map_to_list m)) /\ length (values m visit) = size m /\
+  forall v, v ∈ values m visit <-> exists k, m !! k = Some v.
+Proof. exact @values_correct. Qed.
+Print Assumptions C14_map_values.
+
+(* ---- Non-vacuity: the hypotheses above are satisfiable (Z.eqb decides equality, a transitive
+   equals, a visit order), and the models compute the expected values on concrete inputs. ---- *)
+Example C14_example :
+  (forall x y : Z, Z.eqb x y = true <-> x = y) /\
+  (let eqmod3 (a b : Z) := ((a - b) mod 3 =? 0)%Z in
+   (forall x y z, eqmod3 x y = true -> eqmod3 y z = true -> eqmod3 x z = true) /\
+   distinctfunc [1; 4; 2; 7; 5; 3]%Z eqmod3 = [1; 2; 3]%Z) /\
+  fold [1; 2; 3]%Z 5%Z (fun s v => (s * 2 + v)%Z) = 51%Z /\
+  foldreverse [1; 2; 3]%Z 5%Z (fun s v => (s * 2 + v)%Z) = Ok 57%Z /\
+  maperr 0%Z [1; 2; 3; 4]%Z (fun v => ((v * 10)%Z, if (v =? 3)%Z then Some v else None))
+    = Ok ([], Some 3%Z, [1; 2; 3]%Z) /\
+  distinct Z.eqb [3; 1; 3; 2; 1]%Z = [3; 1; 2]%Z /\
+  groupby Z.eqb 0%Z [1; 2; 3; 4; 5]%Z (fun v => (v mod 3)%Z) = Ok [(1, [1; 4]); (2, [2; 5]); (0, [3])]%Z /\
+  countby Z.eqb 0%Z [1; 2; 3; 4; 5]%Z (fun v => (v mod 3)%Z) = Ok [(1, 2); (2, 2); (0, 1)]%Z /\
+  trim Z.eqb [0; 1; 0; 2; 1; 0]%Z [0; 1]%Z = Ok [2]%Z /\
+  last_ (@nil Z) = Panic IndexOutOfRange /\
+  (let m : gmap Z Z := list_to_map [(3, 4); (1, 2); (5, 4)]%Z in
+   Permutation (map_to_list m) (map_to_list m) /\
+   keys m (map_to_list m) = [1; 3; 5]%Z /\ keyof Z.eqb 0%Z m (map_to_list m) 4%Z = (3%Z, true) /\
+   keyof Z.eqb 0%Z m (rev (map_to_list m)) 4%Z = (5%Z, true)).
+Proof.
+  split; [exact Z.eqb_eq|]. split.
+  - split; [|vm_compute; reflexivity].
+    intros x y z Hxy Hyz. apply Z.eqb_eq in Hxy, Hyz. apply Z.eqb_eq.
+    replace (x - z)%Z with ((x - y) + (y - z))%Z by lia.
+    rewrite Z.add_mod, Hxy, Hyz by lia. reflexivity.
+  - vm_compute. repeat split; reflexivity || apply Permutation_refl.
+Qed.
